@@ -294,3 +294,31 @@ CONTRACTS["mingus.containers.instrument.Guitar.can_play_notes"] = dict(
     inline_callees=[I + "can_play_notes"],
     notes="domain: containers of 0, 1, 2, 6 and 7 notes (both sides of the six-string limit), any order and spelling",
     properties=["C14"], battery="guitar_nc")
+
+# an interval stacked on a START NOTE OBJECT: the container holds that very object and a transposed COPY of it; the
+# caller's note is left as it was (it may sit in other containers)
+_ISZ = "(maj_semis(digit(shorthand[len(shorthand) - 1])) + sh_acc(shorthand))"
+CONTRACTS[M + "from_interval_shorthand"] = dict(
+    params={"self": "NoteContainer", "startnote": "Note", "shorthand": "str", "up": "bool"},
+    requires=[("name-up-to-double-accidentals", "canon(startnote.name) and abs(net(startnote.name)) <= 4"),
+              ("valid-names", "all([is_name(n.name) for n in self.notes])"),
+              ("channel-and-velocity-in-range", "0 <= startnote.channel and startnote.channel < 16 and "
+                                                "0 <= startnote.velocity and startnote.velocity < 128"),
+              ("shorthand-up-to-two-accidentals",
+               "is_interval_shorthand(shorthand) and len(shorthand) <= 3 and "
+               "(cnt_sharp(shorthand, 0, len(shorthand) - 1) == 0 or cnt_flat(shorthand, 0, len(shorthand) - 1) == 0)"),
+              ("size-0-to-11", "0 <= %s and %s <= 11" % (_ISZ, _ISZ))],
+    old={"old_name": "startnote.name", "old_octave": "startnote.octave", "old_pitch": "pitch(startnote)"},
+    returns="NoteContainer",
+    ensures=[("returns-the-container-itself", "same_object(result, self)"),
+             ("the-start-note-is-left-as-it-was", "startnote.name == old_name and startnote.octave == old_octave"),
+             ("holds-the-start-note-object", "any([same_object(n, startnote) for n in self.notes])"),
+             ("and-otherwise-only-a-note-at-the-interval",
+              "len(self.notes) <= 2 and all([same_object(n, startnote) or "
+              "pitch(n) == old_pitch + (1 if up else -1) * %s for n in self.notes])" % _ISZ),
+             ("two-notes-unless-the-interval-is-a-unison", "len(self.notes) == (1 if %s == 0 else 2)" % _ISZ)],
+    modifies=["param:self"],
+    split=[{"field_types": {"self.notes": sz}, "bind": {"up": u}} for sz in SIZES[:2] for u in (True, False)],
+    split_is_domain=True,
+    inline_callees=["mingus.containers.note.Note.__init__", "mingus.containers.note.Note.set_note"],
+    properties=["C12", "C11"], battery="nc_interval_note")
